@@ -445,7 +445,11 @@ class Coordinator(object):
             return result
 
         def rejoin_d_errback(result):
+            # A Kafka error nothing else handled (e.g. the topic metadata load
+            # failed) must still lead to a rejoin: never sit idle.
             log.error("%s error during join_and_sync: %s", self, result)
+            if result.check(KafkaError):
+                self.rejoin_after_error(result, label="join_and_sync")
 
         self._rejoin_d = d = self._join_and_sync()
         d.addBoth(cleanup_rejoin_d).addErrback(rejoin_d_errback)
